@@ -28,9 +28,9 @@ from .common import enc, dec
 LANGS = ["c", "cpp", "py", "html"]
 C10_CLASSES = shared.PROC_CLASSES
 OPTSETS = {
-    "c": [("default", []), ("pp2", ["--pp-max-emptylines", "2", "--pp-trim-trailing-whitespace"]), ("asserts", ["--enable-serialization-asserts"])],
-    "cpp": [("default", []), ("pp1", ["--pp-max-emptylines", "1", "--pp-trim-trailing-whitespace"]), ("c++17", ["--language-standard", "c++17"])],
-    "py": [("default", []), ("pp2", ["--pp-max-emptylines", "2"])],
+    "c": [("default", []), shared.PPRUN, ("pp2", ["--pp-max-emptylines", "2", "--pp-trim-trailing-whitespace"]), ("asserts", ["--enable-serialization-asserts"])],
+    "cpp": [("default", []), shared.PPRUN, ("pp1", ["--pp-max-emptylines", "1", "--pp-trim-trailing-whitespace"]), ("c++17", ["--language-standard", "c++17"])],
+    "py": [("default", []), shared.PPRUN, ("pp2", ["--pp-max-emptylines", "2"])],
     "html": [("pp1", ["--pp-max-emptylines", "1"]), ("default", [])],
 }
 
